@@ -58,14 +58,14 @@ def reseed(s):
         pass
 
 
-def mirror_failure(ctx, key, desc):
+def mirror_failure(ctx, key, desc, prefix=None):
     """after the oracle ran for a model/implementation disagreement `key`: if it exhibited a failing
     input that is not a listed known finding, report it under the disagreement's own key as well
     (the framework pairs disagreements and failures by key)"""
     from harness.core import KnownMap
     known = KnownMap([k for k in ctx.known if k.get("status", "open") == "open"])
     for f in ctx.failures:
-        if f["key"].startswith(key + ":") and f["key"] not in known:
+        if f["key"].startswith((prefix or key) + ":") and f["key"] != key and f["key"] not in known:
             ctx.fail(key, desc, f["demanded"], f["got"], f"{f['what']} [{f['key']}]")
             return True
     return False
@@ -928,4 +928,7 @@ def gibbs_checks(ctx, cuqi, M, L, T, thorough, seed):
     for (keyb, desc, impl), out in zip(hmeta, houts):
         ctx.case("gibbs-tie", desc, nontrivial=False)
         if impl != out:
-            ctx.disagree(keyb + (":tie" if not keyb.endswith("split0") else ""), desc, out[:200], impl[:200], "Gibbs storage / tuning calls differ from the model")
+            tkey = keyb + (":tie" if not keyb.endswith("split0") else "")
+            ctx.disagree(tkey, desc, out[:200], impl[:200], "Gibbs storage / tuning calls differ from the model")
+            if tkey != keyb:
+                mirror_failure(ctx, tkey, desc, prefix=keyb)
